@@ -1094,7 +1094,9 @@ def pattern_ldr32_reg(context, tree, c0):
 
 
 @isa.pattern("reg", "NEGI8(reg)", size=2)
+@isa.pattern("reg", "NEGU8(reg)", size=2)
 @isa.pattern("reg", "NEGI16(reg)", size=2)
+@isa.pattern("reg", "NEGU16(reg)", size=2)
 @isa.pattern("reg", "NEGI32(reg)", size=2)
 @isa.pattern("reg", "NEGU32(reg)", size=2)
 def pattern_negi32(context, tree, c0):
@@ -1105,6 +1107,8 @@ def pattern_negi32(context, tree, c0):
 
 @isa.pattern("reg", "INVI8(reg)", size=2)
 @isa.pattern("reg", "INVU8(reg)", size=2)
+@isa.pattern("reg", "INVI16(reg)", size=2)
+@isa.pattern("reg", "INVU16(reg)", size=2)
 @isa.pattern("reg", "INVU32(reg)", size=2)
 @isa.pattern("reg", "INVI32(reg)", size=2)
 def pattern_inv(context, tree, c0):
